@@ -26,7 +26,7 @@ m = {
  "setup_cmd": "bin/setup.sh",
  "hooks": {
   "guard": "verif",
-  "enable": "go build -tags verif (harness module replaces github.com/blugelabs/ice/v2 => /repo); scheduling points/shims are generated from the current tree at check time by vinstr/ (typed AST instrumenter) and delivered with -overlay, never committed",
+  "enable": "go build -tags verif (harness module replaces github.com/blugelabs/ice/v2 => /repo); scheduling points/shims are generated from the current tree at check time by vinstr/ (typed AST instrumenter) and delivered with -overlay, never committed (full instrumentation for C09/C12/C14/C19; for the other checks only the sync.Pool shims: deterministic pools emptied per case)",
   "baseline_off_cmd": "cd /repo && GOFLAGS=-mod=mod GOPROXY=off GOSUMDB=off GOTOOLCHAIN=local go test -json -vet=off -count=1 -timeout 25m ./...",
   "source_commits": hook_commits,
   "add_only": True,
